@@ -272,8 +272,16 @@ func (tb *termBuilder) term(v ssa.Value, at ssa.Instruction) *Term {
 	case *ssa.MakeClosure:
 		return &Term{Op: "closure", Name: short(x.Fn.String()), V: v, In: x}
 	case *ssa.Call:
+		if t := tb.inlineNewHelper(x, 0, false); t != nil {
+			return t
+		}
 		return tb.callTerm(&x.Call, x, x)
 	case *ssa.Extract:
+		if c, ok := x.Tuple.(*ssa.Call); ok {
+			if t := tb.inlineNewHelper(c, x.Index, true); t != nil {
+				return t
+			}
+		}
 		return &Term{Op: "extract", Name: fmt.Sprint(x.Index), Args: []*Term{tb.term(x.Tuple, x)}, V: v, In: x}
 	case *ssa.ChangeType:
 		return tb.term(x.X, x)
@@ -845,4 +853,43 @@ func pinnedFreeVarName(v *ssa.FreeVar) string {
 		}
 	}
 	return v.Name()
+}
+
+// inlineNewHelper: a call to a repo function that did not exist in the pinned tree (a helper introduced by a
+// refactoring), with a single return and a small body, is rendered as its return expression with the arguments
+// substituted — so extracting a computation into a helper leaves every term unchanged. Functions of the pinned
+// tree are never inlined (the rule tables name them).
+func (tb *termBuilder) inlineNewHelper(c *ssa.Call, idx int, tuple bool) *Term {
+	callee := staticCallee(&c.Call)
+	if callee == nil || len(callee.Blocks) == 0 || len(callee.Blocks) > 10 || !tb.P.IsRepoFn(callee) {
+		return nil
+	}
+	loadPinned()
+	if len(pinnedParams) == 0 {
+		return nil
+	}
+	if _, known := pinnedParams[short(callee.String())]; known {
+		return nil
+	}
+	if callee.Synthetic != "" {
+		return nil
+	}
+	rets := Returns(callee)
+	if len(rets) != 1 || idx >= len(rets[0].Results) {
+		return nil
+	}
+	if !tuple && len(rets[0].Results) != 1 {
+		return nil
+	}
+	if tb.depth > maxTermDepth-4 {
+		return nil
+	}
+	m := map[string]*Term{}
+	for i, p := range callee.Params {
+		if i < len(c.Call.Args) {
+			m[pinnedParamName(p)] = tb.term(c.Call.Args[i], c)
+		}
+	}
+	inner := &termBuilder{P: tb.P, stack: map[ssa.Value]bool{}, depth: tb.depth + 1}
+	return inner.term(rets[0].Results[idx], rets[0]).Subst(m)
 }
